@@ -16,6 +16,8 @@ CONSTANTS MaxCircs,    \* circuit handles
           Acts,        \* enabled action names
           LinkTypes,   \* relation types explicit links may use
           MinEmit,     \* shortest history printed as a program
+          Anchors,     \* templates that may be used freely; the others (Menu \ Anchors) at most MaxNonAnchor times per program
+          MaxNonAnchor,
           DeepRefs,    \* may an explicit relation refer to an operation nested inside a sub-circuit (not a direct entry)?
           EmitOneIn    \* print every history (1) or a random 1/EmitOneIn sample of them (seeded by TLC's -seed)
 VARIABLES heap, tops, sealed, env, next, hist
@@ -26,6 +28,7 @@ Fresh == [k \in 1..(4 * MaxObjs + 8) |-> Id(next + k - 1)]
 
 \* leaf template (link and home are filled by the action)
 T(kind, qs, chans, dur, tag) == Leaf(kind, qs, chans, dur, tag, NoLink, None)
+TX(kind, qs, chans, dur, tag, extra) == [T(kind, qs, chans, dur, tag) EXCEPT !.extra = extra]
 
 Step(a, c, id, s, m, link, rep, key, val, what) ==
   [a |-> a, c |-> c, id |-> id, s |-> s, m |-> m, link |-> link, rep |-> rep, key |-> key, val |-> val, what |-> what, fm |-> <<>>]
@@ -57,12 +60,13 @@ NewCircuit ==
 AddOp ==
   /\ "AddOp" \in Acts /\ CanStep /\ Cardinality(DOMAIN heap) < MaxObjs
   /\ \E c \in Open, m \in Menu :
-     \E given \in {NoLink} \cup {OneLink(r, t) : r \in Handles \cap RefsIn(c), t \in LinkTypes} :
-     \E link \in AllowedLinks(heap, c, Range(m.chans), given) :
-       /\ heap' = DoAddOp(heap, c, Id(next), m, link)
-       /\ next' = next + 1
-       /\ hist' = Append(hist, Step("AddOp", c, Id(next), None, m, given, <<"fixed", 1>>, "", 0, ""))
-       /\ UNCHANGED <<tops, sealed, env>>
+     /\ m \in Anchors \/ Cardinality({j \in 1..Len(hist) : hist[j].a = "AddOp" /\ hist[j].m \notin Anchors}) < MaxNonAnchor
+     /\ \E given \in {NoLink} \cup {OneLink(r, t) : r \in Handles \cap RefsIn(c), t \in LinkTypes} :
+          \E link \in AllowedLinks(heap, c, Range(m.chans), given) :
+            /\ heap' = DoAddOp(heap, c, Id(next), m, link)
+            /\ next' = next + 1
+            /\ hist' = Append(hist, Step("AddOp", c, Id(next), None, m, given, <<"fixed", 1>>, "", 0, ""))
+            /\ UNCHANGED <<tops, sealed, env>>
 
 AddSub ==
   /\ "AddSub" \in Acts /\ CanStep
@@ -99,6 +103,33 @@ Apply ==
        /\ hist' = Append(hist, Step("Apply", c, None, None, NoM, NoLink, <<"fixed", 1>>, "", 0, ""))
        /\ UNCHANGED <<tops, env>>
 
+\* a second application must change nothing (C06 idempotence); the specification's state is unchanged
+Reapply ==
+  /\ "Reapply" \in Acts /\ CanStep
+  /\ \E c \in sealed \cap tops :
+       /\ hist[Len(hist)].a # "Reapply"
+       /\ hist' = Append(hist, Step("Reapply", c, None, None, NoM, NoLink, <<"fixed", 1>>, "", 0, ""))
+       /\ UNCHANGED <<heap, tops, sealed, env, next>>
+
+\* flatten: the nesting is removed, the leaves stay (which relations the flat operations carry is left open by the
+\* properties; the generator keeps relations between leaves and drops the others)
+FlatHeap(H, c) ==
+  LET Ls == LeavesOf(H, c)  keep == Range(Ls) \cup (DOMAIN H \ Subtree(H, c)) IN
+  [i \in keep \cup {c} |->
+     IF i = c THEN [H[c] EXCEPT !.kids = Ls]
+     ELSE IF i \in Range(Ls)
+          THEN [H[i] EXCEPT !.home = c, !.link = IF H[i].link.k = "one" /\ H[i].link.ref \in Range(Ls) THEN H[i].link ELSE NoLink]
+          ELSE H[i]]
+Flatten ==
+  /\ "Flatten" \in Acts /\ CanStep
+  /\ \E c \in tops :
+       /\ c \in sealed \/ \A b \in Blocks(heap, c) : EvalRep(env, heap[b].rep) = 1
+       /\ (\E i \in Subtree(heap, c) : heap[i].t = "comp" /\ i # c) \/ hist[Len(hist)].a # "Flatten"
+       /\ heap' = FlatHeap(heap, c)
+       /\ sealed' = sealed \cup {c}
+       /\ hist' = Append(hist, Step("Flatten", c, None, None, NoM, NoLink, <<"fixed", 1>>, "", 0, ""))
+       /\ UNCHANGED <<tops, env, next>>
+
 SetDur ==
   /\ "SetDur" \in Acts /\ CanStep /\ EnvBudget
   /\ \E v \in {2, 6, 10} :
@@ -132,7 +163,7 @@ Obs ==
        /\ hist' = Append(hist, Step("Obs", c, None, None, NoM, NoLink, <<"fixed", 1>>, "", 0, w))
        /\ UNCHANGED <<heap, tops, sealed, env, next>>
 
-Next == NewCircuit \/ AddOp \/ AddSub \/ CopyCirc \/ Apply \/ SetDur \/ SetRep \/ Enter \/ Leave \/ Obs
+Next == NewCircuit \/ AddOp \/ AddSub \/ CopyCirc \/ Apply \/ Reapply \/ Flatten \/ SetDur \/ SetRep \/ Enter \/ Leave \/ Obs
 Spec == Init /\ [][Next]_vars
 
 \* ---- emission of programs (generation role)
